@@ -133,6 +133,10 @@ def scaffold_correspondence(ctx, stats):
     bad = []
     for i, s, o in traces:
         a, b = il.get(i), ml.get(i)
+        if a is None and impl.returncode != 0:
+            # the template's code panicked on this trace (the model is total); later traces were not run
+            bad.append({"id": i, "size": s, "ops": o, "template": "process died: " + impl.stderr.strip()[-300:], "model": b})
+            break
         stats["scaffold_traces"] += 1
         if a is None or b is None or a != b[:3]:
             bad.append({"id": i, "size": s, "ops": o, "template": a, "model": b})
@@ -142,8 +146,13 @@ def scaffold_correspondence(ctx, stats):
             bad.append({"id": i, "size": s, "ops": o, "template": a, "model": b, "note": "in-bounds trace differs from vmRun (contradicts C18_embedded_state_eq_vm_state)"})
     if bad:
         bad.sort(key=lambda d: len(d["ops"]))
-        ctx.violation(f"template StateStorage and Model/RustGen.lean rustRun disagree on {len(bad)} traces; smallest: size={bad[0]['size']} ops={bad[0]['ops']}",
-                      dict(bad[0], stage="scaffold", correspondence="template StateStorage vs rustRun", cases=len(bad)), found_input=False)
+        vmdiff = [b for b in bad if "note" in b]
+        if vmdiff:      # a concrete in-bounds trace on which the template's scaffold leaves the VM's step function
+            ctx.violation(f"the template's StateStorage differs from the VM's state machine on an in-bounds trace: storage of {vmdiff[0]['size']} words, ops={vmdiff[0]['ops']} ({len(vmdiff)} traces)",
+                          dict(vmdiff[0], stage="scaffold", theorem="C18_embedded_state_eq_vm_state", cases=len(vmdiff)))
+        else:
+            ctx.violation(f"template StateStorage and Model/RustGen.lean rustRun disagree on {len(bad)} traces; smallest: size={bad[0]['size']} ops={bad[0]['ops']}",
+                          dict(bad[0], stage="scaffold", correspondence="template StateStorage vs rustRun", cases=len(bad)), found_input=False)
 
 
 # ---------------------------------------------------------------------------------------------------------------
@@ -460,8 +469,7 @@ def main(ctx, args):
     ]
     known = load_known("C18")
     os.makedirs(WORK, exist_ok=True)
-    if not extract(ctx):
-        ctx.finish()
+    extract(ctx)        # a changed source shape is reported; the correspondences below still run and search for a concrete input
     proved = prove(ctx, MODULES, drivers=["drv_c18", "drv_prog"])
     if proved and ctx.tier == "thorough":
         proved = leancheck(ctx, MODULES)
